@@ -419,6 +419,18 @@ Definition wf_op_b (st : state) (o : op) : bool :=
   | OMigrate _ _ _ _ => true
   end.
 
+(* a sufficient boolean test for "the invariant is violated": some object is filed under a name
+   that is not the digest of its bytes, or a local-class object is not read-only *)
+Definition name_bad_b (a : alg) (k : oid) (b : list N) : bool :=
+  negb (list_N_eqb k (if is_dir_oid k then H a b ++ dot_dir else H a b)).
+Definition store_viol_b (s : store) : bool :=
+  existsb (fun k => match alookup k (s_objs s) with
+                    | Some o => name_bad_b (s_alg s) k (o_bytes o)
+                                || match s_cls s with Local => negb (o_mode o =? mode_ro) | Base => false end
+                    | None => false
+                    end) (map fst (s_objs s)).
+Definition viol_b (st : state) : bool := existsb store_viol_b (st_stores st).
+
 Definition step (st : state) (o : op) : state := fst (step_op st o).
 
 Fixpoint wf_hist_b (st : state) (ops : list op) : bool :=
